@@ -9,6 +9,7 @@
      [t |-> "star"|"plus"|"opt", a |-> r]
      [t |-> "bol"] / [t |-> "eol"]        ^ / $ without the m flag: beginning / end of the subject
      [t |-> "cap", name |-> bytes, a |-> r]   (?P<name>r): matches as r and records where
+     [t |-> "grp", a |-> r]               (r): an unnamed capturing group - it only takes an index
    Subjects are arbitrary byte strings; "any" and negated classes consume one rune as Go decodes it. *)
 EXTENDS Integers, Sequences, Utf8
 
@@ -34,7 +35,7 @@ Ends(r, s, i) ==
     [] r.t = "opt"  -> {i} \cup Ends(r.a, s, i)
     [] r.t = "bol"  -> IF i = 1 THEN {i} ELSE {}
     [] r.t = "eol"  -> IF i = Len(s) + 1 THEN {i} ELSE {}
-    [] r.t = "cap"  -> Ends(r.a, s, i)
+    [] r.t \in {"cap", "grp"} -> Ends(r.a, s, i)
 
 FullMatch(r, s) == (Len(s) + 1) \in Ends(r, s, 1)           \* ^(?:r)$
 Search(r, s)    == \E i \in 1..(Len(s) + 1) : Ends(r, s, i) # {}   \* unanchored
@@ -57,6 +58,7 @@ ReText(r) ==
     [] r.t = "bol"  -> <<94>>
     [] r.t = "eol"  -> <<36>>
     [] r.t = "cap"  -> <<40, 63, 80, 60>> \o r.name \o <<62>> \o ReText(r.a) \o <<41>>      \* (?P<name>...)
+    [] r.t = "grp"  -> <<40>> \o ReText(r.a) \o <<41>>
 
 \* handy constructors
 RLit(x) == [t |-> "lit", c |-> x]
@@ -72,6 +74,7 @@ RNCls(S) == [t |-> "cls", set |-> S, neg |-> TRUE]
 RBol == [t |-> "bol"]
 REol == [t |-> "eol"]
 RCap(n, a) == [t |-> "cap", name |-> n, a |-> a]
+RGrp(a) == [t |-> "grp", a |-> a]
 
 (* ---- submatches: leftmost-first, as Go's regexp (and Perl) choose them.
    Prio(r, s, i) lists the ways r can match at position i in the order a backtracking matcher tries them: the left
@@ -96,6 +99,7 @@ Prio(r, s, i) ==
   CASE r.t \in {"eps", "lit", "any", "cls", "bol", "eol"} ->
          LET E == Ends(r, s, i) IN IF E = {} THEN <<>> ELSE << [e |-> CHOOSE x \in E : TRUE, c |-> {}] >>
     [] r.t = "cap"  -> LET pa == Prio(r.a, s, i) IN [k \in DOMAIN pa |-> [e |-> pa[k].e, c |-> Over(pa[k].c, {<<r.name, i, pa[k].e>>})]]
+    [] r.t = "grp"  -> Prio(r.a, s, i)
     [] r.t = "cat"  -> LET pa == Prio(r.a, s, i) IN
                        ConcatAll([k \in DOMAIN pa |-> LET pb == Prio(r.b, s, pa[k].e) IN [m \in DOMAIN pb |-> [e |-> pb[m].e, c |-> Over(pa[k].c, pb[m].c)]]])
     [] r.t = "alt"  -> Prio(r.a, s, i) \o Prio(r.b, s, i)
@@ -113,18 +117,31 @@ FirstMatch(r, s) ==
 \* group names in the order of their opening parentheses
 RECURSIVE CapNames(_)
 CapNames(r) == CASE r.t = "cap" -> <<r.name>> \o CapNames(r.a)
+                 [] r.t = "grp" -> CapNames(r.a)
                  [] r.t \in {"cat", "alt"} -> CapNames(r.a) \o CapNames(r.b)
                  [] r.t \in {"star", "plus", "opt"} -> CapNames(r.a)
                  [] OTHER -> <<>>
+\* capturing groups, named or not, are numbered from 1 in the order of their opening parentheses: <<index, name>> of the named ones
+RECURSIVE NGroups(_)
+NGroups(r) == CASE r.t \in {"cap", "grp"} -> 1 + NGroups(r.a)
+                [] r.t \in {"cat", "alt"} -> NGroups(r.a) + NGroups(r.b)
+                [] r.t \in {"star", "plus", "opt"} -> NGroups(r.a)
+                [] OTHER -> 0
+RECURSIVE Indexed(_, _)
+Indexed(r, k) == CASE r.t = "cap" -> << <<k, r.name>> >> \o Indexed(r.a, k + 1)
+                   [] r.t = "grp" -> Indexed(r.a, k + 1)
+                   [] r.t \in {"cat", "alt"} -> Indexed(r.a, k) \o Indexed(r.b, k + NGroups(r.a))
+                   [] r.t \in {"star", "plus", "opt"} -> Indexed(r.a, k)
+                   [] OTHER -> <<>>
 RECURSIVE Nullable(_)
 Nullable(r) == CASE r.t \in {"eps", "bol", "eol", "star", "opt"} -> TRUE
                  [] r.t \in {"lit", "any", "cls"} -> FALSE
-                 [] r.t \in {"cap", "plus"} -> Nullable(r.a)
+                 [] r.t \in {"cap", "grp", "plus"} -> Nullable(r.a)
                  [] r.t = "cat" -> Nullable(r.a) /\ Nullable(r.b)
                  [] r.t = "alt" -> Nullable(r.a) \/ Nullable(r.b)
 RECURSIVE NonNullableReps(_)
 NonNullableReps(r) == CASE r.t \in {"star", "plus"} -> ~Nullable(r.a) /\ NonNullableReps(r.a)
-                        [] r.t \in {"cap", "opt"} -> NonNullableReps(r.a)
+                        [] r.t \in {"cap", "grp", "opt"} -> NonNullableReps(r.a)
                         [] r.t \in {"cat", "alt"} -> NonNullableReps(r.a) /\ NonNullableReps(r.b)
                         [] OTHER -> TRUE
 =============================================================================
